@@ -938,6 +938,53 @@ example : collectLoop [⟨[1], 1, 1, 0, 0⟩, ⟨[2], 2, 1/2, 5, 0⟩, ⟨[3], 1
     = ([⟨.permit, 1, 1⟩, ⟨.abstain, 0, 2⟩, ⟨.block, 1/2, 1⟩],
        [⟨[1], 1, 1, 1, 0⟩, ⟨[2], 2, 1/2, 5, 0⟩, ⟨[3], 1, 1, 1, 0⟩]) := by decide +kernel
 
+/-! ### Statistics and history (round 7) -/
+
+/-- The statistics and the history report the votes: after ANY sequence of votes on a fresh object `total_votes` is
+    the number of ballots in all results, `quorums_reached` / `quorums_failed` count the results that say reached /
+    not reached (together: every vote exactly once), the history holds the newest results in order - all of them up to
+    1000, the last 1000 beyond -, its newest entry is the result just returned and the entry before it the previous
+    result (`get_vote_history(1)`, `get_vote_history(2)`), however many votes were taken. -/
+theorem c06_statistics_and_history_report_the_votes (rs : List Result) :
+    let l := ({} : Ledger).recordAll rs
+    l.totalVotes = sumN (rs.map (·.votes.length)) ∧
+    l.reached = (rs.filter (·.reached)).length ∧ l.failed = (rs.filter (fun r => !r.reached)).length ∧
+    l.reached + l.failed = rs.length ∧
+    l.history = lastN historyCap rs ∧ l.history.length ≤ historyCap ∧
+    (∀ k, 1 ≤ k → k ≤ historyCap → l.recent k = lastN k rs) := by
+  intro l
+  obtain ⟨h1, h2, h3⟩ := recordAll_counts rs {}
+  have hh : l.history = lastN historyCap rs := by
+    have := recordAll_history rs {} [] (by rfl)
+    simpa using this
+  refine ⟨by simpa using h1, by simpa using h2, by simpa using h3, ?_, hh, ?_, ?_⟩
+  · have := filter_partition rs
+    show (({} : Ledger).recordAll rs).reached + (({} : Ledger).recordAll rs).failed = rs.length
+    rw [h2, h3]; simpa using this
+  · rw [hh]; exact lastN_length _ _
+  · intro k hk1 hk2
+    unfold Ledger.recent
+    rw [hh]
+    unfold lastN
+    rw [List.drop_drop, List.length_drop]
+    congr 1
+    omega
+
+/-- … with the results of a history of operations on one object: the ballots counted are one per colony member at
+    each vote (`c06_counts_equal_ballots`) -/
+theorem c06_total_votes_counts_every_ballot (cfg : Cfg) (voters : List Voter) (l : Ledger) :
+    (l.record (runVote cfg voters)).totalVotes = l.totalVotes + voters.length := by
+  unfold Ledger.record
+  simp only
+  rw [(c06_counts_equal_ballots cfg voters).1, List.length_map]
+
+/-- with a cap of 1000 nothing is dropped from three results, and `get_vote_history(2)` is the last two: a BLOCK
+    (one block vote) then a PERMIT (one permit vote) after an earlier PERMIT -/
+example : let p := runVote ⟨.majority, none, 1⟩ [⟨.permit, .absent, 1, 1⟩]
+    let b := runVote ⟨.majority, none, 1⟩ [⟨.block, .absent, 1, 1⟩]
+    (({} : Ledger).recordAll [p, b, p]).recent 2 = [b, p] ∧ (({} : Ledger).recordAll [p, b, p]).totalVotes = 3 ∧
+    (({} : Ledger).recordAll [p, b, p]).reached = 2 ∧ (({} : Ledger).recordAll [p, b, p]).failed = 1 := by decide +kernel
+
 /-! ### Decision tables evaluated from the real code on every run, reproduced by the model in the kernel
 
 `Operon.Gen.QuorumTables` is regenerated on every run by EVALUATING operon_ai/topology/quorum.py through its public
